@@ -52,6 +52,9 @@ def observe(case):
         events.append(H.ev(ev="run_start", kind="full", method=method, K=K))
         events += [H.norm_hook(e) for e in evs]
         events.append(H.ev(ev="run_end", t=int(tt), fpE=H.field_fp(out.fields.E), fpH=H.field_fp(out.fields.H), fpD=H.det_fp(out.detector_states)))
+    import jax
+
+    jax.clear_caches()  # hundreds of distinct compiled loops otherwise exhaust memory in the thorough tier
     return H.finalize(case["id"], T, events, tol=5, cmp_fp=False, extra={"strategies": [f"{m}/{k}/{n}" for m, k, n in case["strategies"]]})
 
 
